@@ -9,6 +9,7 @@ import (
 	"fmt"
 	"sort"
 	"strings"
+	"time"
 
 	gmsl "github.com/matrix-org/gomatrixserverlib"
 	"github.com/matrix-org/gomatrixserverlib/spec"
@@ -37,12 +38,14 @@ func (staticVerifier) VerifyJSONs(ctx context.Context, reqs []gmsl.VerifyJSONReq
 	return out, nil
 }
 
-func uid(_ spec.RoomID, s spec.SenderID) (*spec.UserID, error) { return spec.NewUserID(string(s), true) }
+func uid(_ spec.RoomID, s spec.SenderID) (*spec.UserID, error) {
+	return spec.NewUserID(string(s), true)
+}
 
-var tamperNames = []string{"none", "content-unprotected", "content-protected", "top-junk", "hash-altered", "hash-removed", "unsigned", "age_ts", "outlier", "destinations", "redacts-top", "depth"}
+var tamperNames = []string{"none", "content-unprotected", "content-protected", "top-junk", "hash-altered", "hash-removed", "unsigned", "age_ts", "outlier", "destinations", "redacts-top", "depth", "sticky", "msc4354_sticky"}
 
 // redactable[t]: the tampering touches only material that redaction removes or that is stripped on receipt
-var redactableOnly = map[string]bool{"none": true, "content-unprotected": true, "top-junk": true, "unsigned": true, "age_ts": true, "outlier": true, "destinations": true}
+var redactableOnly = map[string]bool{"none": true, "content-unprotected": true, "top-junk": true, "unsigned": true, "age_ts": true, "outlier": true, "destinations": true, "sticky": true, "msc4354_sticky": true}
 
 func set(v *refjson.Value, key string, val *refjson.Value) *refjson.Value {
 	out := &refjson.Value{Kind: refjson.Object}
@@ -115,6 +118,8 @@ func tamper(version string, v *refjson.Value, t string) (*refjson.Value, bool) {
 		return set(v, "redacts", lit(`"$forged"`)), true
 	case "depth":
 		return set(v, "depth", lit(`77`)), true
+	case "sticky", "msc4354_sticky": // top-level keys outside every keep-list that an accessor (IsSticky / StickyEndTime) reads
+		return set(v, t, lit(`{"duration_ms":600000}`)), true
 	}
 	panic(t)
 }
@@ -214,6 +219,19 @@ func runCase(r *harness.Run, c c04Case) error {
 			accErr = fmt.Errorf("Depth() = %d, JSON says %s", ev.Depth(), wd.Num)
 			return
 		}
+		// accessors fed by top-level keys: what they report must come from the JSON the event now has
+		var wantSticky int64
+		for _, k := range []string{"sticky", "msc4354_sticky"} {
+			if x := evgen.Get(evgen.Get(want, k), "duration_ms"); x != nil && x.Kind == refjson.Number && wantSticky == 0 {
+				fmt.Sscan(x.Num, &wantSticky)
+			}
+		}
+		recv := time.UnixMilli(int64(ev.OriginServerTS()))
+		end := ev.StickyEndTime(recv)
+		if (wantSticky == 0) != end.IsZero() || ev.IsSticky(recv, recv) != (wantSticky != 0) {
+			accErr = fmt.Errorf("StickyEndTime() = %v / IsSticky() = %v but the event's JSON carries sticky duration %d", end, ev.IsSticky(recv, recv), wantSticky)
+			return
+		}
 		h, e := ev.ToHeaderedJSON()
 		if e != nil {
 			accErr = fmt.Errorf("ToHeaderedJSON: %v", e)
@@ -286,7 +304,7 @@ func runCase(r *harness.Run, c c04Case) error {
 func main() { harness.Main("C04", "model_checking", run) }
 
 func run(r *harness.Run) {
-	r.Rule("every built event of the proto-event alphabet (9 type/state-key shapes x contents) x all 16 room versions x every single and every pair of 11 tamperings (unprotected / protected content key, extra top-level key, hash altered / removed, unsigned, age_ts, outlier, destinations, top-level redacts, depth) plus the untampered event, parsed with NewEventFromUntrustedJSON; additionally each tampered copy is parsed after the genuine copy and again after another tampered copy (history sensitivity). Oracle: Redacted() <=> reference content-hash mismatch; JSON()/Content()/Redacts()/Unsigned()/headered JSON equal the reference redaction (refredact) resp. the intact event; redactable-only tampering keeps the event ID and the signature verdict. Non-trivial = distinct (version, event, tampering set).")
+	r.Rule("every built event of the proto-event alphabet (9 type/state-key shapes x contents) x all 16 room versions x every single and every pair of 13 tamperings (unprotected / protected content key, extra top-level key, hash altered / removed, unsigned, age_ts, outlier, destinations, top-level redacts, depth, top-level sticky / msc4354_sticky) plus the untampered event, parsed with NewEventFromUntrustedJSON; additionally each tampered copy is parsed after the genuine copy and again after another tampered copy (history sensitivity). Oracle: Redacted() <=> reference content-hash mismatch; JSON()/Content()/Redacts()/Unsigned()/StickyEndTime()/IsSticky()/headered JSON equal the reference redaction (refredact) resp. the intact event; redactable-only tampering keeps the event ID and the signature verdict. Non-trivial = distinct (version, event, tampering set).")
 	r.Assume("sha256/ed25519 trusted", "signature verdicts are taken through a static verifier holding the signers' keys (key validity is C06/C12)")
 	r.OnReplay("case", func(raw json.RawMessage) error {
 		var c c04Case
